@@ -183,7 +183,11 @@ func (ip *Inode) Resize(atxn *alloctxn.AllocTxn, sz uint64) bool {
 	ip.Size = newSz
 	newSz = util.RoundUp(sz, disk.BlockSize)
 	if newSz < oldsz {
-		ip.ShrinkSize = oldsz
+		// if an earlier shrink is still in progress, keep freeing from where
+		// it is; its blocks beyond oldsz are not yet freed
+		if ip.ShrinkSize < oldsz {
+			ip.ShrinkSize = oldsz
+		}
 	} else {
 		ip.ShrinkSize = newSz
 	}
